@@ -673,7 +673,7 @@ CORRESPONDENCE_ONLY = [
     "move_insert / insert, which are; the sized, fill and range constructors of static_vector and flat_set::replace are modelled, "
     "proved and explored; inplace_vector has no sized / range constructor in this library), converting constructors of variant / optional / "
     "expected from a value, optional<T> = U and optional<T> = optional<U> for U other than T (the paths of optional.hpp that assign "
-    "through since 48efb47; they need a second element type; optional<T> = T goes through a temporary optional and is explored), "
+    "through since 48efb47; they need a second element type; optional<T> = T of class type assigns through / emplaces directly since fix 8cb2243 and is explored: optAssignValue), "
     "expected holding its error alternative (reachable only through unexpected / converting constructors), pair / tuple (members, language lifetime)",
     "static_vector of move-only elements has no move assignment and no swap (operator=(static_vector&&) is constrained on "
     "is_assignable<T&, T&>): those operations do not exist for the move-only kind and are absent from its histories",
